@@ -68,6 +68,11 @@ def run(ctx):
         dist["outcome:" + c.outcome] = dist.get("outcome:" + c.outcome, 0) + 1
         dist["origin:" + c.origin] = dist.get("origin:" + c.origin, 0) + 1
         if c.outcome in ("decl", "raise"):
+            # F28: the message of the SubstitutionError cannot be rendered for ints beyond the int->str limit
+            if isinstance(c.exc, ValueError) and "integer string conversion" in str(c.exc) and \
+                    pyspec.has_huge_int(c.value) and \
+                    ctx.known_finding("F28", f"substitute({c.ssrc}, <int with more than 4300 digits>)"):
+                continue
             rp = c.replay_dict()
             rp.update(observed=f"{type(c.exc).__name__}: {c.exc}", expected="a schema or SubstitutionError")
             ctx.violation(f"substitute raised {type(c.exc).__name__}", rp)
@@ -79,15 +84,7 @@ def run(ctx):
         plain = pyspec.is_plain(v)
         nan = pyspec.has_nan(v) or ssuite.schema_has_nan(c.schema)
         # usable: S hereditarily generable => S % v generates values it accepts
-        if nan:
-            # the pinned NaN is rejected by its own schema (nan != nan): known finding F10
-            try:
-                rejected = pyspec.is_plain(v) and not ssuite.accepts(c.result, v)
-            except Exception:  # noqa
-                rejected = False
-            if rejected:
-                ctx.known_finding("F10", f"S={c.ssrc}, v={c.vsrc()}")
-        elif placeholder:
+        if placeholder:
             # a result built from placeholders must still be a schema one can validate against
             try:
                 for good, g, used in ssuite.gen_values(ctx, c.result, modes=("min",)):
